@@ -131,6 +131,29 @@ def _stores(fn):
     return {n.id for n in ast.walk(fn) if isinstance(n, ast.Name) and isinstance(n.ctx, (ast.Store, ast.Del))}
 
 
+def expand_tail(fn, call, is_method):
+    """`return h(...)`: the helper's body verbatim (its returns are the caller's returns)."""
+    if fn.decorator_list or _has(fn, (ast.Yield, ast.YieldFrom, ast.Await)) or \
+            any(isinstance(n, (ast.FunctionDef, ast.AsyncFunctionDef, ast.ClassDef)) and n is not fn for n in ast.walk(fn)):
+        raise NoInline('shape')
+    bound = _bind(fn, call, is_method)
+    body = [copy.deepcopy(s) for s in fn.body]
+    if body and isinstance(body[0], ast.Expr) and isinstance(body[0].value, ast.Constant) and isinstance(body[0].value.value, str):
+        body = body[1:]
+    stores = _stores(fn)
+    prefix, mapping = [], {}
+    for p, v in bound.items():
+        if _simple(v) and p not in stores:
+            mapping[p] = v
+        elif not (isinstance(v, ast.Name) and v.id == p):
+            prefix.append(ast.Assign(targets=[ast.Name(id=p, ctx=ast.Store())], value=copy.deepcopy(v)))
+    sub = _Subst(mapping)
+    body = [sub.visit(s) for s in body]
+    if not _always_returns(body):
+        body.append(ast.Return(value=ast.Constant(value=None)))
+    return prefix + body
+
+
 def expand(fn, call, is_method, uid):
     """-> (prefix statements, result expression or None)"""
     if fn.decorator_list or _has(fn, (ast.Yield, ast.YieldFrom, ast.Await)) or \
@@ -174,13 +197,36 @@ class Inliner:
         self.trees = trees
         self.mode = mode
         self.known = known_functions() if mode == 'unknown' else set()
-        # a name defined in more than one class may be an override: never inlined
-        self.defcount = {}
-        for tree in trees.values():
+        # a helper that is (or may be) overridden is never inlined: classes related by inheritance
+        # (bases resolved by bare name over the whole package) that define the same method name
+        classes = {}
+        for mod, tree in trees.items():
             for cls in [n for n in ast.walk(tree) if isinstance(n, ast.ClassDef)]:
-                for n in cls.body:
-                    if isinstance(n, ast.FunctionDef):
-                        self.defcount[n.name] = self.defcount.get(n.name, 0) + 1
+                classes.setdefault(cls.name, []).append(cls)
+        def bases_of(cls, seen):
+            out = []
+            for b in cls.bases:
+                bn = b.id if isinstance(b, ast.Name) else (b.attr if isinstance(b, ast.Attribute) else None)
+                for bc in classes.get(bn, []):
+                    if id(bc) not in seen:
+                        seen.add(id(bc))
+                        out.append(bc)
+                        out += bases_of(bc, seen)
+            return out
+        related = {}
+        for lst in classes.values():
+            for cls in lst:
+                for b in bases_of(cls, {id(cls)}):
+                    related.setdefault(id(cls), []).append(b)
+                    related.setdefault(id(b), []).append(cls)
+        self.overridden = set()  # (id(class), method name)
+        for lst in classes.values():
+            for cls in lst:
+                mine = {n.name for n in cls.body if isinstance(n, ast.FunctionDef)}
+                for other in related.get(id(cls), []):
+                    for n in other.body:
+                        if isinstance(n, ast.FunctionDef) and n.name in mine:
+                            self.overridden.add((id(cls), n.name))
         self.count = 0
         self.notes = []
 
@@ -194,7 +240,7 @@ class Inliner:
                 mfuncs = {n.name: n for n in tree.body if isinstance(n, ast.FunctionDef) and f'{mod}.{n.name}' not in self.known}
                 for cls in [n for n in ast.walk(tree) if isinstance(n, ast.ClassDef)]:
                     cands = {n.name: n for n in cls.body if isinstance(n, ast.FunctionDef) and f'{mod}.{cls.name}.{n.name}' not in self.known
-                             and not n.name.startswith('__') and self.defcount.get(n.name) == 1
+                             and not n.name.startswith('__') and (id(cls), n.name) not in self.overridden
                              and (self.mode == 'unknown' or n.name.startswith('_'))}
                     if not cands and not mfuncs:
                         continue
@@ -273,6 +319,17 @@ class Inliner:
                     tgt, is_method = self._target(call, cands, mfuncs, func)
                     if tgt is not None:
                         try:
+                            if form == 'return':
+                                tail = expand_tail(tgt, call, is_method)
+                                for x in tail:
+                                    for y in ast.walk(x):
+                                        if not hasattr(y, 'lineno') and isinstance(y, (ast.stmt, ast.expr)):
+                                            ast.copy_location(y, s)
+                                out.extend(tail)
+                                self.count += 1
+                                self.notes.append(f'{mod}.{clsname + "." if clsname else ""}{func.name}: inlined {tgt.name}')
+                                changed = True
+                                continue
                             pre, res = expand(tgt, call, is_method, self.count)
                             for x in pre:
                                 ast.copy_location(x, s)
@@ -285,7 +342,15 @@ class Inliner:
                                 if res is None:
                                     raise NoInline('no value')
                                 out.extend(pre)
-                                if not (isinstance(res, ast.Name) and isinstance(s.targets[0], ast.Name) and res.id == s.targets[0].id):
+                                t0 = s.targets[0]
+                                if isinstance(t0, ast.Tuple) and isinstance(res, ast.Tuple) and len(t0.elts) == len(res.elts) \
+                                        and all(isinstance(e, ast.Name) for e in t0.elts) and all(isinstance(e, ast.Name) for e in res.elts) \
+                                        and not ({e.id for e in t0.elts} & {r.id for e, r in zip(t0.elts, res.elts) if e.id != r.id}):
+                                    # a, b = (x, y): element-wise (identical names need no copy)
+                                    for e, r in zip(t0.elts, res.elts):
+                                        if e.id != r.id:
+                                            out.append(ast.copy_location(ast.Assign(targets=[e], value=r), s))
+                                elif not (isinstance(res, ast.Name) and isinstance(t0, ast.Name) and res.id == t0.id):
                                     out.append(ast.copy_location(ast.Assign(targets=s.targets, value=res), s))
                             elif form == 'return':
                                 out.extend(pre)
